@@ -697,6 +697,14 @@ def bond_classes(spec, exp_bonds, obs_bonds):
             ai, aj = atoms[i], atoms[j]
             ki, kj = polymer_kind(ai[3]), polymer_kind(aj[3])
             adjacent = rj == ri + 1
+            # what struct_conn cannot say about a bond whatever its position: aromaticity; an unknown
+            # order cannot be told from an unstated one
+            inexpressible = None
+            if how == "retyped":
+                if et in (5, 6, 7) and ot == et - 4:
+                    inexpressible = "aromaticity_not_expressible"
+                elif et in (0, 9) and ot == 1:
+                    inexpressible = tc
             proper = adjacent and ki is not None and ki == kj and (
                 (ki == "pep" and ai[5] == "C" and aj[5] == "N") or (ki == "nuc" and ai[5] == "O3'" and aj[5] == "P"))
             if proper:
@@ -710,6 +718,8 @@ def bond_classes(spec, exp_bonds, obs_bonds):
                     cls = "link|lost|%s" % where
                 elif how == "added" and ot == 1:
                     cls = "link|added|unbonded_in_input|%s" % where
+                elif how == "retyped" and inexpressible is not None:
+                    cls = "inter|retyped|%s" % inexpressible  # does not depend on the position of the bond
                 elif how == "retyped" and ot == 1:
                     cls = "link|retyped|non_single->SINGLE|%s" % where
                 else:
@@ -720,6 +730,8 @@ def bond_classes(spec, exp_bonds, obs_bonds):
                     cls = "inter|lost|connector_atom_names_but_no_polymer_link"
                 elif how == "lost" and pseudo and rj > ri:
                     cls = "inter|lost|connector_atom_names_residues_%d_apart" % (rj - ri)
+                elif inexpressible is not None:
+                    cls = "inter|retyped|%s" % inexpressible
                 else:
                     cls = "inter|%s|%s" % (how, tc)
         out.setdefault(cls, (list(pair), et, ot))
